@@ -152,6 +152,7 @@ class RecSubscriber:
         self._rec('on_next', data=data, metadata=md, complete=bool(is_complete))
         if data or md:
             self.received += 1
+        self._maybe_raise('on_next', self.received)
         if is_complete:
             self.terminal = True
             return
@@ -171,10 +172,19 @@ class RecSubscriber:
     def on_complete(self):
         self._rec('on_complete')
         self.terminal = True
+        self._maybe_raise('on_complete')
+
+    def _maybe_raise(self, cb, count=None):
+        """buggify: the application's subscriber callback fails."""
+        r = self.script.get('raise_in')
+        if r and r['cb'] == cb and (cb != 'on_next' or count == r.get('at', 1)):
+            self.world.fault_fired('buggify_sub_' + cb)
+            raise AppError('subscriber %s of %d failed' % (cb, self.iid))
 
     def on_error(self, exception):
         self._rec('on_error', err='%s: %s' % (type(exception).__name__, str(exception)[:120]))
         self.terminal = True
+        self._maybe_raise('on_error') if not self.script.get('retry_on_error') else None
         retry = self.script.get('retry_on_error')
         if retry is not None:
             # an application that falls back / retries from inside the error callback
